@@ -157,22 +157,28 @@ class H2Protocol:
         # This should be run in a seperate task to the rest of this
         # class. This allows it seperately choose when to send,
         # crucially in what order.
-        while not self.closed:
-            try:
-                stream_id = next(self.priority)
-            except priority.DeadlockError:
-                await self.has_data.wait()
-                await self.has_data.clear()
-            else:
+        try:
+            while not self.closed:
                 try:
-                    await self._send_data(stream_id)
-                except priority.MissingStreamError:
-                    # The priority tree is offering a stream it no
-                    # longer knows, nothing more can be scheduled.
-                    self.connection.close_connection(h2.errors.ErrorCodes.INTERNAL_ERROR)
-                    await self._flush()
-                    await self.send(Closed())
-                    return
+                    stream_id = next(self.priority)
+                except priority.DeadlockError:
+                    await self.has_data.wait()
+                    await self.has_data.clear()
+                else:
+                    try:
+                        await self._send_data(stream_id)
+                    except priority.MissingStreamError:
+                        # The priority tree is offering a stream it no
+                        # longer knows, nothing more can be scheduled.
+                        self.connection.close_connection(h2.errors.ErrorCodes.INTERNAL_ERROR)
+                        await self._flush()
+                        await self.send(Closed())
+                        return
+        finally:
+            # Nothing more will be sent (e.g. cancelled at the end of
+            # a graceful shutdown), so release anything waiting to send.
+            for stream_buffer in self.stream_buffers.values():
+                await stream_buffer.close()
 
     async def _send_data(self, stream_id: int) -> None:
         try:
